@@ -276,6 +276,78 @@ def check(run):
     if not ok:
         run.violation("R5", tg.where, "SceneGraph.to_gltf no longer takes the mesh position from the index it is handed", key=key_of("C08-R5", "to_gltf"))
 
+    # ------------------------------------------------------------------ R6 face indices are not narrowed by a count
+    run.rule("R6", "exporters cast face indices to a fixed type of at least 32 bits; a width chosen at run time is chosen by the largest index (faces.max() / len(vertices)), never by a count of faces")
+    from ..provenance import Prov
+    import re as _re
+    WIDE = {"uint32", "numpy.uint32", "numpy.int32", "numpy.int64", "numpy.uint64", "int64", "int32", "int", "'<u4'", "'<i4'", "'<i8'", "'<u8'", "numpy.dtype('<u4')",
+            "trimesh.exchange.gltf.uint32", "trimesh.exchange.ply.int32", "numpy.int_", "'i4'", "'u4'", "'i8'"}
+    n6 = 0
+    exp_mods = [m for m in ix.modules.values() if m.name.startswith(("trimesh.exchange.", "trimesh.path.exchange."))]
+    for m in exp_mods:
+        for f in [x for x in ix.all_functions if x.module is m]:
+            casts = [c for c in ast.walk(f.node) if isinstance(c, ast.Call) and isinstance(c.func, ast.Attribute) and c.func.attr == "astype" and c.args
+                     and _re.search(r"\.faces\b", ast.unparse(c.func.value)) and not _re.search(r"face_(normals|colors|attributes)", ast.unparse(c.func.value))]
+            if not casts:
+                continue
+            pv = Prov(ix, f)
+            for c in casts:
+                st = pv.stmt_of(c)
+                if st is None or not pv.cfg.nodes_of.get(id(st)):
+                    continue
+                n6 += 1
+                dt = pv.canon(c.args[0], st)
+                ok = dt in WIDE or dt.replace('"', "'") in WIDE
+                how = "fixed wide type"
+                if not ok:
+                    # a computed dtype: whatever selects it must look at the largest index
+                    ok = ".max()" in dt or "len(P_mesh.vertices)" in dt or "vertices" in dt
+                    how = f"selected at run time by `{dt[:60]}`"
+                run.instance("R6", f.where, f"{f.qualname}: `{ast.unparse(c)[:50]}` -> {dt[:40]} ({how})", ok)
+                if not ok:
+                    run.violation("R6", f.where, f"`{f.qualname}` narrows face indices with `{ast.unparse(c)[:60]}` to a type chosen by `{dt[:70]}`: the choice does not depend on the "
+                                                 f"largest index, so a mesh with few faces but many vertices wraps its indices on export", key=key_of("C08-R6", f.qualname))
+    run.floor("face-index casts in exporters", n6, 1)
+    # ------------------------------------------------------------------ R7 format fields match the data formatted
+    run.rule("R7", "text exporters: a template applied with `.format(*array)` has one field group per row of that array (template * len(array)); a pre-built template of another size would silently drop rows")
+    n7 = 0
+    for m in exp_mods:
+        for f in [x for x in ix.all_functions if x.module is m]:
+            calls = [c for c in ast.walk(f.node) if isinstance(c, ast.Call) and isinstance(c.func, ast.Attribute) and c.func.attr == "format"
+                     and len(c.args) == 1 and isinstance(c.args[0], ast.Starred) and isinstance(c.func.value, ast.Name)]
+            if not calls:
+                continue
+            pv = Prov(ix, f)
+            for c in calls:
+                st = pv.stmt_of(c)
+                if st is None or not pv.cfg.nodes_of.get(id(st)):
+                    continue
+                star = c.args[0].value
+                base = star
+                while isinstance(base, ast.Call) and isinstance(base.func, ast.Attribute) and base.func.attr in ("flatten", "reshape", "ravel", "tolist"):
+                    base = base.func.value
+                bname = ast.unparse(base)
+                alts = pv.alternatives(c.func.value.id, st, stop=tuple(n.id for n in ast.walk(base) if isinstance(n, ast.Name)))
+                if alts is None:
+                    continue
+                n7 += 1
+                sized = {a_: (_re.search(r"\* len\(([^()]+)\)$", a_).group(1) if _re.search(r"\* len\(([^()]+)\)$", a_) else None) for a_ in alts}
+
+                def norm(x):
+                    return _re.sub(r"\b(P_|L_|PHI_)", "", x)
+
+                # what the array's own first dimension is built from (e.g. np.zeros((len(mesh.faces), 4, 3)))
+                arr_defs = set()
+                if isinstance(base, ast.Name):
+                    arr_defs = {norm(x) for x in (pv.alternatives(base.id, st) or set())}
+                ok = all(v is not None and (norm(v) == norm(bname) or any(f"len({norm(v)})" in d_ for d_ in arr_defs)) for v in sized.values())
+                run.instance("R7", f.where, f"{f.qualname}: `{ast.unparse(c.func.value)}.format(*{bname[:30]}...)`: template sized by {sorted(str(v) for v in sized.values())}", ok)
+                if not ok:
+                    run.violation("R7", f.where, f"`{f.qualname}` formats `{bname}` with a template that is not `<fields> * len({bname})` on every path ({sorted(alts)[0][:60]}...): "
+                                                 f"str.format ignores surplus arguments, so rows beyond the template's size are dropped without an error",
+                                  key=key_of("C08-R7", f.qualname, bname))
+    run.floor("starred format calls in exporters", n7, 2)
+
     run.assume("element-by-element equality of reloaded data, precision, colour order and instance placement are values and are not decided")
     return {
         "explanation": "Interprocedural write-effect analysis of every exporter entry point (nothing rooted at the exported object is written); "
